@@ -274,7 +274,7 @@ func genNewtonMinSpec(r *Rng) Spec {
 		return genUndershoot(r)
 	}
 	s := Spec{StopAt: -1, Cap: 2500}
-	n := 1 + r.Pick([]int{5, 5, 2})
+	n := 1 + r.Pick([]int{10, 10, 5, 1, 1}) // round 6: up to 5 dimensions (pivoting in the solves of getDirection)
 	if r.Intn(3) == 0 {
 		s.Routine = "newton_min_bt"
 	} else {
@@ -285,6 +285,9 @@ func genNewtonMinSpec(r *Rng) Spec {
 	} else {
 		s.Obj = genObj(r, n)
 		s.Obj.ErrAfter, s.Obj.NaNAfter, s.Obj.ErrAbove = -1, -1, 0
+	}
+	if s.Obj.Kind == "quad" && n >= 2 && r.Intn(3) == 0 { // round 6: SPD but not diagonally dominant (pivoting)
+		makeNonDominant(s.Obj.A, n, pickF(r, 2, 3, -2))
 	}
 	injectFailures(r, &s.Obj)
 	s.X0 = genPoint(r, n)
@@ -365,7 +368,8 @@ func pureMinAt(o *ObjSpec, x []float64) (float64, []float64, [][]float64) {
 //  2. every hook call got (g, H, y) of the point passed with it;
 //  3. no non-error return carries a point outside the constraint box;
 //  4. a non-error return carries the point of the last evaluation of f;
-//  5. the caller's start vector is unchanged.
+//  5. the caller's start vector is unchanged;
+//  6. the direction solves the (modified) Newton equation up to rounding (direction.go).
 func newtonMinOracle(s *Spec, r *Run) []Failure {
 	var fs []Failure
 	rt := s.Routine
@@ -373,12 +377,21 @@ func newtonMinOracle(s *Spec, r *Run) []Failure {
 		fs = append(fs, Failure{rt + ".x0_written", fmt.Sprintf("caller's x0 %v became %v", s.X0, r.X0After)})
 	}
 	neval, nhook := 0, 0
-	var lastX []float64
+	dirFailed := false
+	var lastX, lastG []float64
+	var lastH [][]float64
 	for _, e := range r.Ev {
 		switch e.K {
 		case "evalm":
 			neval++
-			lastX = e.X
+			lastX, lastG, lastH = e.X, e.G, e.J
+		case "dir":
+			if !e.Err && !e.Panic && lastH != nil && !dirFailed { // report the first bad direction of a run only
+				if msg := directionCheck(s.Mode, lastG, lastH, e.G); msg != "" {
+					fs = append(fs, Failure{rt + ".direction_residual", msg})
+					dirFailed = true
+				}
+			}
 		case "hookm":
 			y, g, H := pureMinAt(&s.Obj, e.X)
 			if !bitsEq(g, e.G) || !matBitsEq(H, e.J) || !bitsEq([]float64{y}, []float64{e.Y}) {
